@@ -47,31 +47,34 @@ def sign_rules(j, P, s, mode, ob):
     ob(ok1, "S1:one-rng-request:%s" % ent, {"rule": "S1 exactly one generator request of 32 bytes that fills rnd", "entry": j["root"], "set": s, "requests": rc})
     rnd_dest = rc[0]["dest"] if rc else None
     # S7
-    rho_src = st.expand_a(j, P, ob, "sign_internal", "sign:%s" % ent, lambda src: src.startswith("in.self."))
-    # S3
-    top = st.dedup(st.sites_under(j, "sign_internal>h256_xof", "Shake256"))
-    mus = [x for x in top if x["items"] and x["items"][0]["len"] == [64, 64] and x["items"][0]["src"].startswith("in.self.") and len(x["items"]) >= 4]
+    roles = st.hash_roles(j, "sk.tr")
+    rho_src = st.expand_a(j, P, ob, None, "sign:%s" % ent, lambda src: src.startswith("in.self."))
+    # S3 (roles are bound by dataflow: mu = the SHAKE256 instance that absorbs the key's tr first; rho'' = the one
+    # that absorbs 32 | 32 | the 64 bytes read from the mu instance)
+    mus = roles["mu"]
     okm, rdm = (False, None)
     if len(mus) == 1:
-        okm, rdm = st.single_read(j, mus[0], 64, ".mu")
+        rdm = absorb.reads(j, mus[0]["id"])
+        okm = len(rdm) == 1 and rdm[0]["len"] == "64" and rdm[0]["off"] == "0..0" and rdm[0]["dest_start"] == "0" and len(mus[0]["items"]) >= 4
     ob(okm, "S3:mu:%s" % ent, {"rule": "S3 mu = H(tr | M', 64): one 64-byte read at offset 0", "entry": j["root"], "set": s, "sites": [x["rendered"][:160] for x in mus], "reads": rdm})
-    rps = [x for x in top if len(x["items"]) == 3 and [i["len"] for i in x["items"]] == [[32, 32], [32, 32], [64, 64]]]
+    rps = roles["rho2"]
     okr, detail = False, {}
     if len(rps) == 1:
         it = rps[0]["items"]
-        ok_read, rd = st.single_read(j, rps[0], 64, ".rho_prime")
-        okr = it[0]["src"].startswith("in.self.") and it[0]["src"] != rho_src and it[1]["taint_all"] & 1 == 1 and it[2]["src"].endswith(".mu") and ok_read
+        rd = absorb.reads(j, rps[0]["id"])
+        ok_read = len(rd) == 1 and rd[0]["len"] == "64" and rd[0]["off"] == "0..0" and rd[0]["dest_start"] == "0"
+        okr = it[0]["src"].startswith("in.self.") and it[0]["src"] != rho_src and it[1]["taint_all"] & 1 == 1 and ok_read
         detail = {"absorbed": rps[0]["rendered"][:200], "reads": rd, "rho_source": rho_src, "rnd_buffer": rnd_dest}
-    ob(okr, "S3:rho-second:%s" % ent, {"rule": "S3 rho'' = H(K | rnd | mu, 64): K is the 32-byte key field other than rho, every byte of rnd comes from the single generator request", "entry": j["root"], "set": s,
+    ob(okr, "S3:rho-second:%s" % ent, {"rule": "S3 rho'' = H(K | rnd | mu, 64): K is the 32-byte key field other than rho, every byte of rnd comes from the single generator request, mu is the output of the mu instance", "entry": j["root"], "set": s,
                                        "candidates": len(rps), **detail})
     # S4
-    ems = st.dedup(st.sites_under(j, "sign_internal>expand_mask>h256_xof", "Shake256"))
+    ems = roles["expand_mask"]
     c = 1 + st.bitlen(P["gamma1"] - 1)
     bad = None
     for t, x in enumerate(ems):
         it = x["items"]
         rd = absorb.reads(j, x["id"])
-        good = len(it) == 2 and it[0]["len"] == [64, 64] and it[0]["src"].endswith(".rho_prime") and it[1]["len"] == [2, 2] and len(rd) >= 1 and all(int(d["len"]) >= 32 * c and d["off"] == "0..0" for d in rd)
+        good = len(it) == 2 and it[0]["len"] == [64, 64] and len(rps) == 1 and st.flows_from(it[0], j, rps[0], 64) and it[1]["len"] == [2, 2] and len(rd) >= 1 and all(int(d["len"]) >= 32 * c and d["off"] == "0..0" for d in rd)
         if t < 3 * l:
             good = good and it[1]["consts"] == st.le16(t)
         if not good:
@@ -107,17 +110,19 @@ def sign_rules(j, P, s, mode, ob):
                                                   "entry": j["root"], "set": s, "l": l, "kappa_per_analysed_iteration": kap[:12]})
     # S5
     w1len = 32 * k * st.bitlen((P["q"] - 1) // (2 * P["gamma2"]) - 1)
-    chs = [x for x in top if len(x["items"]) == 2 and x["items"][0]["len"] == [64, 64] and x["items"][0]["src"].endswith(".mu")]
+    chs = roles["commit"]
     okc = len(chs) >= 1
     seen = []
     for x in chs:
-        ok_read, rd = st.single_read(j, x, lam4, ".c_tilde")
+        rd = absorb.reads(j, x["id"])
+        ok_read = len(rd) == 1 and rd[0]["len"] == str(lam4) and rd[0]["off"] == "0..0" and rd[0]["dest_start"] == "0"
         seen.append({"absorbed": x["rendered"][:120], "reads": rd[:2]})
         okc = okc and x["items"][1]["len"] == [w1len, w1len] and ok_read
     ob(okc, "S5:commitment-hash:%s" % ent, {"rule": "S5 c~ = first lambda/4 bytes of H(mu | w1Encode(w1))", "entry": j["root"], "set": s, "w1_len": w1len, "lambda_div_4": lam4, "sites": seen[:3]})
-    sib = st.dedup(st.sites_under(j, "sign_internal>sample_in_ball>h256_xof", "Shake256"))
-    oks = len(sib) >= 1 and all(len(x["items"]) == 1 and x["items"][0]["len"] == [lam4, lam4] and x["items"][0]["src"].endswith(".c_tilde") for x in sib)
-    ob(oks, "S5:challenge-from-whole-ctilde:%s" % ent, {"rule": "S5 SampleInBall absorbs the whole c~", "entry": j["root"], "set": s, "sites": [x["rendered"][:120] for x in sib[:3]]})
+    sib = roles["sample_in_ball"]
+    oks = len(sib) >= 1 and all(len(x["items"]) == 1 and x["items"][0]["len"] == [lam4, lam4] and any(st.flows_from(x["items"][0], j, c_, lam4) for c_ in chs) for x in sib)
+    ob(oks, "S5:challenge-from-whole-ctilde:%s" % ent, {"rule": "S5 SampleInBall absorbs the whole c~ (the lambda/4 bytes read from a commitment hash)", "entry": j["root"], "set": s,
+                                                         "sites": [x["rendered"][:120] for x in sib[:3]]})
     # S6
     norms, sums = st.emit_condition(j, P, s, ent, ob, "S6")
     return {"set": s, "mode": mode, "kappa": kap[:6], "emit_condition": {kx.split(": ", 1)[1]: list(v) for kx, v in list(norms.items()) + list(sums.items())}}
